@@ -336,12 +336,18 @@ struct SeqOut {
 static LOCKSTEP_INSTRUCTIONS: std::sync::atomic::AtomicU64 = std::sync::atomic::AtomicU64::new(0);
 
 fn lockstep(case: &Case, steps: usize, mode: Mode) -> Option<(String, String, &'static str)> {
+    lockstep_looking(case, steps, mode, false)
+}
+
+/// `look`: the machine is observed through its public read-only API after every clock edge (a front-end
+/// redraws); neither the results nor the edge counts may depend on that.
+fn lockstep_looking(case: &Case, steps: usize, mode: Mode, look: bool) -> Option<(String, String, &'static str)> {
     let mut m = case.machine();
                 let mut c = case.cpu;
                 let mut mem = case.refmem();
                 let mut latch = false;
                 let mut continued = 0;
-                if !matches!(mach::to_boundary(&mut m, 4), RunEnd::Boundary(_)) {
+                if !matches!(mach::to_boundary_observed(&mut m, 4, look), RunEnd::Boundary(_)) {
                     return Some(("completion".to_string(), "no first boundary".to_string(), "?"));
                 }
                 for step in 0..steps {
@@ -350,7 +356,7 @@ fn lockstep(case: &Case, steps: usize, mode: Mode) -> Option<(String, String, &'
                     if c.sp >= 0xF0 || info.sp_values.iter().any(|&s| s >= 0xF0) {
                         return None; // supervision territory (C05)
                     }
-                    let end = mach::to_boundary(&mut m, 4096);
+                    let end = mach::to_boundary_observed(&mut m, 4096, look);
                     let ok_end = match (info.outcome, end) {
                         (Outcome::Done, RunEnd::Boundary(e)) => {
                             if mode == Mode::C15 && e != info.words + info.waits {
@@ -384,7 +390,7 @@ fn lockstep(case: &Case, steps: usize, mode: Mode) -> Option<(String, String, &'
                     if info.outcome == Outcome::Stop && info.form == "STOP" && continued < 2 {
                         continued += 1;
                         m.trigger_key_continue();
-                        match mach::to_boundary(&mut m, 64) {
+                        match mach::to_boundary_observed(&mut m, 64, look) {
                             RunEnd::Boundary(_) => {
                                 if mode == Mode::C01 {
                                     if let Some((field, what)) = sw::compare(&m, &c, &mem) {
@@ -431,7 +437,7 @@ fn io_code(mode: Mode, full: bool) -> (Stats, u64) {
             match res {
                 Ok(None) => st.changed += 1,
                 Ok(Some((key, what, _))) => {
-                    let is_cycle = key.starts_with("cycles/");
+                    let is_cycle = key.contains("cycles/");
                     if (mode == Mode::C15) == is_cycle {
                         st.bad_case(format!("iocode/{}", key), &case, format!("[{}] {}", group, what));
                     }
@@ -473,12 +479,18 @@ fn repo_runs(mode: Mode, steps: usize) -> (Stats, u64, usize) {
     let before = LOCKSTEP_INSTRUCTIONS.load(std::sync::atomic::Ordering::Relaxed);
     let outs = mc::par_map(&cases, |(group, case)| {
         let mut st = Stats::default();
-        let res = mc::catch(|| lockstep(case, steps, mode));
+        let res = mc::catch(|| {
+            let r = lockstep(case, steps.min(400), mode);
+            if r.is_none() {
+                return lockstep_looking(case, steps, mode, true).map(|(k, w, f)| (format!("observed/{}", k), format!("with the machine looked at after every edge: {}", w), f));
+            }
+            r
+        });
         st.evals += 1;
         match res {
             Ok(None) => st.changed += 1,
             Ok(Some((key, what, _))) => {
-                let is_cycle = key.starts_with("cycles/");
+                let is_cycle = key.contains("cycles/");
                 if (mode == Mode::C15) == is_cycle {
                     st.bad_case(format!("program/{}", key), case, format!("[{}] {}", group, what));
                 }
@@ -539,7 +551,14 @@ fn sequences(mode: Mode, depth: usize) -> (Stats, u64, u64, usize, Vec<String>) 
             }
             let group = format!("G4 start={} seq={:?}", s, names);
             // lock-step
-            let res = mc::catch(|| lockstep(&case, depth + 2, mode));
+            let res = mc::catch(|| {
+                let r = lockstep(&case, depth + 2, mode);
+                // the same run with a front-end looking at the machine after every edge (first start state)
+                if r.is_none() && s == 0 {
+                    return lockstep_looking(&case, depth + 2, mode, true).map(|(k, w, f)| (format!("observed/{}", k), format!("with the machine looked at after every edge: {}", w), f));
+                }
+                r
+            });
             out.instr += depth as u64 + 2;
             out.st.evals += 1;
             match res {
@@ -547,7 +566,7 @@ fn sequences(mode: Mode, depth: usize) -> (Stats, u64, u64, usize, Vec<String>) 
                     out.st.changed += 1;
                 }
                 Ok(Some((key, what, _form))) => {
-                    let is_cycle = key.starts_with("cycles/");
+                    let is_cycle = key.contains("cycles/");
                     if (mode == Mode::C15) == is_cycle {
                         out.st.bad_case(format!("seq/{}", key), &case, format!("[{}] {}", group, what));
                     }
